@@ -121,6 +121,10 @@ func (c *c15) Run(cs core.Case) core.Result {
 	pos := rng.Intn(nf)
 	var idx string
 	evilData := scen.GenData(rng, "random", 20+rng.Intn(60), 16)
+	if p.Seed%3 == 0 {
+		// a zero-length entry: nothing to reconstruct, but the name is still resolved
+		evilData = []byte{}
+	}
 	if p.Fmt == "par2" {
 		var in []par2rw.InFile
 		for i := 0; i < nf; i++ {
@@ -140,12 +144,28 @@ func (c *c15) Run(cs core.Case) core.Result {
 			}
 		}
 		idx = filepath.Join(t.arch, "set.par2")
-		pk := append([]par2rw.Packet{rs.MainPacket()}, rs.Critical()[1:]...)
+		// a zero-length file has no slices, hence no checksum packet
+		critical := func() []par2rw.Packet {
+			var out []par2rw.Packet
+			for _, q := range rs.Critical() {
+				if q.Type == par2rw.TypeIFSC && len(q.Body) <= 16 {
+					continue
+				}
+				out = append(out, q)
+			}
+			return out
+		}
+		pk := append([]par2rw.Packet{rs.MainPacket()}, critical()[1:]...)
 		pk = append(pk, rs.CreatorPacket("ref"))
 		os.WriteFile(idx, par2rw.Serialize(pk), 0644)
 		nb := (len(evilData)+15)/16 + 1
+		if len(evilData) == 0 {
+			// the reference writer gives an empty file no checksum packet body; keep the
+			// set otherwise valid by emitting the description only
+			nb = 2
+		}
 		vp := []par2rw.Packet{rs.CreatorPacket("ref")}
-		vp = append(vp, rs.Critical()...)
+		vp = append(vp, critical()...)
 		for e := 0; e < nb; e++ {
 			vp = append(vp, rs.RecvPacket(uint32(e)))
 		}
@@ -267,6 +287,15 @@ func (c *c15) runCreate(r *core.R, t *canaryTree, rng *rand.Rand) {
 		{filepath.Join(t.root, "canary", "x")},
 		{filepath.Join(t.arch, "in.bin"), filepath.Join(t.work, "sibling", "x")},
 		{filepath.Join(t.arch, "in.bin"), filepath.Join(t.root, "x")},
+		// sibling directories whose names merely extend the index directory's name
+		{filepath.Join(t.arch, "in.bin"), filepath.Join(t.work, "arch-old", "x")},
+		{filepath.Join(t.work, "arch2", "x")},
+		{filepath.Join(t.arch, "in.bin"), filepath.Join(t.work, "arch.bak", "x")},
+		{filepath.Join(t.arch, "in.bin"), filepath.Join(t.work, "archive", "x")},
+	}
+	for _, d := range []string{"arch-old", "arch2", "arch.bak", "archive"} {
+		os.MkdirAll(filepath.Join(t.work, d), 0755)
+		os.WriteFile(filepath.Join(t.work, d, "x"), []byte("sibling decoy "+d), 0644)
 	}
 	before := scen.Snapshot(t.root)
 	for i, files := range outside {
@@ -283,7 +312,7 @@ func (c *c15) runCreate(r *core.R, t *canaryTree, rng *rand.Rand) {
 		r.Count("create_refusals", 1)
 	}
 	for _, d := range scen.DiffSnap(before, scen.Snapshot(t.root)) {
-		if !strings.Contains(d, "work/arch/") {
+		if !strings.Contains(d, " work/arch/") {
 			r.Violate("effect-outside-archive-directory|create", "Create: %s", d)
 		}
 	}
